@@ -144,6 +144,41 @@ PROPS["C19"] = {
     "assumptions": [],
 }
 
+STREAM_TB = CODEC_TB + [
+    "std Read::read_exact (retries Interrupted, Ok(0) = UnexpectedEof, zero-length request performs no read) and futures-util ReadExact (no retry, Pending suspends) modelled by readExactStd / readExactFut (Model/Loop.lean); a scripted source is a list of events data/pending/interrupted/fail",
+    "wake-up delivery of a real executor is modelled as 'polled again'; the harness's executor has a watchdog for a suspension without wake-up",
+]
+
+PROPS["C05"] = {
+    "features": None,
+    "technique": "Lean 4 proof: simulation between the two read_exact models lifts through the drive loop; tag ranges of both loops pinned equal (translator); scripted-source differential runs",
+    "level_text": "Machine-checked theorems: `loops_pin` (the tag ranges and end tag extracted separately from the async and the blocking drive loop are equal), `async_eq_blocking` (for every script of data chunks, not-ready results and failures without Interrupted the async parser's outcome equals the blocking parser's: same header, groups, remaining stream, or the same error with the same tag / I/O kind), `async_eq_blocking_delivered` (the same against the blocking parser run on the script with not-ready results removed, which is how the real blocking parser is driven), `interrupted_differs` (the one designed difference, stated explicitly). For all scripts: any chunking, any number of not-ready results, unbounded length. Tie to the code: every composition of short messages (n<=16), uniform chunkings with 0-2 not-ready results per chunk under immediate and deferred wake-up, random compositions of generated, wire-tree and mutated messages incl. injected failures are run through the real AsyncIppParser (own executor with watchdog) and the real IppParser; outcomes are compared with each other and with the model.",
+    "level_note": "Partial: a lost wake-up in a real executor would be a hang the model cannot show (watchdog in the harness). read_exact of std / futures-util are modelled libraries.",
+    "design_ref": "DESIGN.md section 9, C05",
+    "trusted_base": STREAM_TB,
+    "assumptions": ["Interrupted is excluded from the equivalence (std retries it, futures-util returns it) and covered by interrupted_differs"],
+}
+
+PROPS["C06"] = {
+    "features": None,
+    "technique": "Lean 4 proof: reader simulation (fragmented source vs flat bytes) + exact-consumption lemma by induction on the loop; scripted-source differential runs",
+    "level_text": "Machine-checked theorems: `fragmentation_blocking` / `fragmentation_async` (for every fault-free script – any fragmentation down to single bytes, Interrupted results for the blocking reader, not-ready results for the async one – the outcome equals the outcome on the unfragmented bytes and the remaining reader holds exactly the remaining bytes), `exact_consumption` (every accepted input splits into a consumed part ending with the end-of-attributes tag and an untouched rest, and the result is the same whatever follows: the parser never reads ahead, the payload is delivered unmodified). Tie to the code: every composition of short messages, byte-at-a-time, uniform and random fragmentations with Interrupted / not-ready insertions of generated messages with payloads (empty, one byte, tag-like, up to MiBs thorough) through the real parsers via parse_parts; the drained remaining reader must equal the payload.",
+    "level_note": "read_exact and Cursor are modelled libraries; IppPayload wrapping of the remaining reader is covered by C08.",
+    "design_ref": "DESIGN.md section 9, C06",
+    "trusted_base": STREAM_TB,
+    "assumptions": [],
+}
+
+PROPS["C07"] = {
+    "features": None,
+    "technique": "Lean 4 proof: prefix lemma on the flat reader generalised to a reader whose end-of-input error is e; lifted to scripted sources by simulation; exhaustive cut/fault enumeration per message",
+    "level_text": "Machine-checked theorems: `prefix_rejected` (for every input the parser accepts, every proper prefix of the consumed part is rejected with UnexpectedEof), `prefix_rejected_streams` (the same through both parsers under any fragmentation), `fault_propagates` (if the source fails with kind e before the end-of-attributes tag has been delivered – after any fault-free fragmentation, whatever follows – both parsers return an error carrying e). Tie to the code: for each fixed and generated well-formed message every cut point and a single injected failure at every offset (all kinds for short messages, WouldBlock for the blocking reader) through both real parsers; the outcome must be an error of that kind and must equal the model's.",
+    "level_note": "Interrupted is excluded for the blocking reader (std retries it by design).",
+    "design_ref": "DESIGN.md section 9, C07",
+    "trusted_base": STREAM_TB,
+    "assumptions": [],
+}
+
 ALL_IDS = ["C%02d" % i for i in range(1, 21)]
 
 NOT_YET = "not claimed in this revision: the theorem/correspondence pair for this property is not built yet (see DESIGN.md section 13)"
